@@ -102,8 +102,8 @@ class Bus:
         self.serial[c] = 1
         return c
 
-    def rawconnect(self, uid=0):
-        r = self.h.cmd('RAWCONNECT %d' % uid)
+    def rawconnect(self, uid=0, tcp_port=None):
+        r = self.h.cmd('RAWCONNECT %d' % uid + (' tcp:%d' % tcp_port if tcp_port else ''))
         if not r.startswith('OK '):
             raise BusError('rawconnect failed: ' + r)
         c = int(r.split()[1])
